@@ -118,9 +118,11 @@ class C13(Prop):
                 qm(sys["A"].tolist()), cnat(sys["n"]), qv(sys["lb"].tolist()), qv(sys["ub"].tolist()), kmat_lit(K, m), qv(base.tolist()),
                 q(case["l1"]), cnat(case["n"]), qm(out["out"]), qm(sub.tolist()), qm(xs), q(1e-9), q(1e-6))
         P = self.cloud(case)
-        return "(Sampling.GS (Sampling.Build_case %s %s %s %s %s %s %s %s %s %s))" % (
+        from scipy.spatial import ConvexHull
+        hv = float(ConvexHull(P).volume) if P.shape[1] > 1 else float(P.max() - P.min())
+        return "(Sampling.GS (Sampling.Build_case %s %s %s %s %s %s %s %s %s %s %s))" % (
             qm(P.tolist()), cnat(P.shape[1]), cnat(case["n"]), qt(out["deln"]), qv(out["vols"]), cnats(out["idx"]), qm(out["probs"]),
-            qm(out["out"]), q(1e-10), q(1e-9))
+            qm(out["out"]), q(hv), q(1e-10), q(1e-9))
 
     def spec_violation(self, case, out):
         cfg = "%s/%s" % (case["entry"], "l1" if case.get("l1") else "plain")
@@ -132,8 +134,13 @@ class C13(Prop):
         if not out["same_seed_same_result"]:
             return {"what": "two calls with the same seed returned different samples", "class": "seed-determinism"}
         if case["entry"] == "function":
-            from scipy.spatial import Delaunay
+            from scipy.spatial import Delaunay, ConvexHull
             P = np.array(case["P"], dtype=float)
+            if "vols" in out:
+                hv = float(ConvexHull(P).volume); tv = float(np.sum(out["vols"]))
+                if abs(tv - hv) > 1e-9 * (1 + hv):
+                    return {"what": "the simplices sampled from have total volume %r but the hull has volume %r: they do not tile the hull (uniformity broken)" % (tv, hv),
+                            "class": "simplices-do-not-tile"}
             inside = Delaunay(P).find_simplex(O, tol=1e-9) >= 0
             if not inside.all():
                 return {"what": "%d of %d samples lie outside the convex hull of the points" % ((~inside).sum(), len(O)), "class": "outside-hull"}
@@ -141,8 +148,22 @@ class C13(Prop):
         sys, Ap, bp = self.transformed(case)
         if case["l1"] is not None and np.max(np.abs(O.sum(axis=1) - case["l1"])) > 1e-9 * (1 + case["l1"]):
             return {"what": "l1=%r requested but sample totals are %s" % (case["l1"], O.sum(axis=1)[:5].tolist()), "class": "l1-total"}
-        bad = 0; worst = 0.0
         step = max(1, len(O) // 60)
+        if case["l1"] is not None:
+            for o in O[::step]:
+                x, t, inf = lp_cert.cone_member(Ap, bp, sys["lb"], sys["ub"], o)
+                if x is None or inf > 1e-6 * (1 + np.abs(o).sum()):
+                    return {"what": "l1 variant: the CHROMATICITY of sample %s is outside the chromatic gamut (LP residual %r)" % (o.tolist(), inf),
+                            "class": "l1-chromaticity-outside"}
+        elif "deln" in out:
+            from scipy.spatial import ConvexHull
+            Pc = self.cloud(case)
+            hv = float(ConvexHull(Pc).volume) if Pc.shape[1] > 1 else float(Pc.max() - Pc.min())
+            tv = float(np.sum(out["vols"]))
+            if abs(tv - hv) > 1e-9 * (1 + hv):
+                return {"what": "the simplices sampled from have total volume %r but the hull has volume %r: they do not tile the hull (uniformity broken)" % (tv, hv),
+                        "class": "simplices-do-not-tile"}
+        bad = 0; worst = 0.0
         for o in O[::step]:
             x, inf = lp_cert.member(Ap, bp, sys["lb"], sys["ub"], o)
             if x is None or inf > 1e-6:
@@ -172,6 +193,38 @@ class C13(Prop):
         exp = np.asarray(rec["vols"]) / np.sum(rec["vols"]) * counts.sum()
         chi, p = chisquare(counts, exp)
         ctx["uniformity"] = {"n": 20000, "simplices": int(len(exp)), "chi2": float(chi), "p": float(p)}
+        # independent of the implementation's triangulation: share of samples in half-planes vs exact clipped hull area
+        from scipy.spatial import ConvexHull
+        from scipy.stats import norm
+        for cloudseed in (1, 2):
+            r2 = np.random.default_rng(cloudseed)
+            P2 = np.vstack([r2.uniform(0, 1, size=(7, 2)) * np.array([3.0, 1.0]), [[1.5, 0.5], [1.4, 0.45], [1.6, 0.55]]])   # with interior points
+            S2 = dreye.sample_in_hull(P2, 20000, seed=11)
+            hull = ConvexHull(P2); poly = P2[hull.vertices]
+            def clip_area(poly, u, t):
+                out = []
+                for a, b in zip(poly, np.roll(poly, -1, axis=0)):
+                    ia, ib = a @ u <= t, b @ u <= t
+                    if ia:
+                        out.append(a)
+                    if ia != ib:
+                        out.append(a + (t - a @ u) / ((b - a) @ u) * (b - a))
+                if len(out) < 3:
+                    return 0.0
+                o = np.array(out); x, y = o[:, 0], o[:, 1]
+                return abs(np.dot(x, np.roll(y, -1)) - np.dot(y, np.roll(x, -1))) / 2
+            worst = 1.0
+            for u in (np.array([1.0, 0.0]), np.array([0.0, 1.0]), np.array([0.6, 0.8]), np.array([-0.8, 0.6])):
+                for qt_ in (0.3, 0.5, 0.7):
+                    t = np.quantile(poly @ u, qt_)
+                    frac = clip_area(poly, u, t) / hull.volume
+                    obs = np.mean(S2 @ u <= t)
+                    z = (obs - frac) / np.sqrt(max(frac * (1 - frac), 1e-12) / len(S2))
+                    worst = min(worst, 2 * (1 - norm.cdf(abs(z))))
+            ctx["uniformity"]["halfplane_min_p_cloud%d" % cloudseed] = float(worst)
+            if worst < 1e-7:
+                vio.append({"class": "uniformity-halfplane", "what": "share of samples in a half-plane differs from the hull's area share (p=%.2g) on a cloud with interior points" % worst,
+                            "payload": {"cloud": P2.tolist(), "p": float(worst)}})
         if p < 1e-6:
             vio.append({"class": "uniformity", "what": "simplex occupancy is not proportional to volume (chi2=%.1f, p=%.2g)" % (chi, p), "payload": ctx["uniformity"]})
         return vio
